@@ -1314,11 +1314,11 @@ func main() {
 		return
 	}
 	g := &gen{w: w, rnd: tr.NewRand(*seed)}
-	nRnd, nPct, nBatch, nStress, stressN := 500, 250, 2, 6, 2500
-	bound, limit := 2, 600
+	nRnd, nPct, nBatch, nStress, stressN := 1000, 500, 2, 6, 2500
+	bound, limit := 2, 1000
 	if *tier == "thorough" {
-		nRnd, nPct, nBatch, nStress, stressN = 20000, 10000, 20, 60, 20000
-		bound, limit = 3, 60000
+		nRnd, nPct, nBatch, nStress, stressN = 12000, 6000, 12, 40, 20000
+		bound, limit = 3, 12000
 	}
 	for i := 0; i < nRnd; i++ {
 		g.random()
@@ -1339,7 +1339,7 @@ func main() {
 		{"1x2-high", [][]spec{{hi, hi}}, nil, 1024, 0},
 		{"2x1-high-low", [][]spec{{hi}, {lo}}, nil, 0, 0},
 		{"2x1-pre1", [][]spec{{lo}, {hi}}, nil, 1, 1},
-		{"1x1-nested", [][]spec{{{high: false, script: 1}}}, nest, 1024, 0},
+		{"1x1-nested-pre1", [][]spec{{{high: false, script: 1}}}, nest, 1024, 1},
 	}
 	for _, c := range cfgs {
 		n := g.bounded(c.sc, c.scr, c.thr, c.pre, bound, limit)
